@@ -40,7 +40,7 @@ class Lane(LaneBase):
         n = 600 if tier == 'quick' else 6000
         for i in range(n):
             gen = histories.Gen(rng, 'ts')
-            yield {'kind': 'hist', 'ops': gen.history(rng.randint(3, 22))}
+            yield {'kind': 'hist', 'ops': gen.history(rng.randint(3, 22)), 'warm': i % 2 == 1}
         m = 300 if tier == 'quick' else 3000
         for i in range(m):
             yield {'kind': 'conv', 'edges': self.rand_lagged_edges(rng, violating=True), 'via': rng.choice(['cg', 'dict'])}
@@ -99,6 +99,11 @@ class Lane(LaneBase):
             if r == 'err ValueError':
                 tags.add(op[0] + ':ValueError')
                 nontrivial = True
+            if r == 'ok' and not oracle and against_time(op):
+                oracle.append(f'{op[0]} was asked for a directed edge against time and did not refuse: {op[1:5]}')
+            if case.get('warm'):
+                # every memoised reader and every derived graph is computed between the calls (read-only)
+                histories.warm_caches(g)
             lines.append('g obs h')
             out.append(impl.obs(g))
             if not oracle:
@@ -113,6 +118,24 @@ class Lane(LaneBase):
                 nontrivial = True
         except Exception:  # noqa: BLE001
             pass
+        # the default topological order of what the history left (when it is a DAG): valid for the CURRENT edges, sorted
+        # by the lags the identifiers spell
+        if not oracle:
+            try:
+                es = [(e.source.identifier, e.destination.identifier, impl.ety(e)) for e in g.get_edges()]
+                names = g.get_node_names()
+                from harness.lanes.c02 import has_cycle
+                if all(t == '->' for _, _, t in es) and not has_cycle([(a, b) for a, b, _ in es]):
+                    order = list(g.get_topological_order())
+                    lag = {n: impl_parse(n) for n in names}
+                    ok = sorted(order) == names and all(order.index(a) < order.index(b) for a, b, _ in es) and \
+                        all(lag[order[i]] <= lag[order[i + 1]] for i in range(len(order) - 1))
+                    tags.add('topo-after-history')
+                    if not ok:
+                        oracle.append(f'after the history the default topological order {order} is not a time-sorted '
+                                      f'topological order of the current graph')
+            except Exception as e:  # noqa: BLE001
+                oracle.append(f'after the history get_topological_order raised {type(e).__name__} on a DAG')
         key = hashlib.sha1('\n'.join(out).encode()).hexdigest()
         return {'lines': lines, 'impl': out, 'oracle': oracle, 'nontrivial': nontrivial, 'key': key, 'tags': sorted(tags)}
 
@@ -154,6 +177,9 @@ class Lane(LaneBase):
             g.add_node(n)
         for s, d in case['edges']:
             g.add_edge(s, d)
+        from harness import gen as _gen
+        _gen.stress(g, ('c13-topo', repr(case['nodes']), repr(case['edges'])))
+        _gen.query_noise(g, ('c13-topo', repr(case['edges'])))
         nodes = list(g.to_networkx().nodes) if case['nodes'] else []
         edges = [tuple(e) for e in case['edges']]
         lag = {n: g.get_node(n).time_lag for n in nodes}
@@ -195,6 +221,23 @@ class Lane(LaneBase):
         if case.get('kind') == 'hist':
             return histories.shrink_ops(case, still_fails)
         return case
+
+
+def against_time(op):
+    """does this call ask, by its own arguments, for a DIRECTED edge whose source is later than its destination?"""
+    def lag(x):
+        x = x if isinstance(x, str) else x.get('id')
+        return impl_parse(x)
+    try:
+        if op[0] == 'add_time_edge':
+            return op[2] > op[4] and impl_parse(op[1]) == 0 and impl_parse(op[3]) == 0
+        if op[0] in ('add_edge', 'add_edge_by_pair', 'add_edge_obj'):
+            return op[3] == '->' and lag(op[1]) > lag(op[2])
+        if op[0] == 'replace_edge':
+            return op[5] == '->' and lag(op[3]) > lag(op[4])
+    except Exception:  # noqa: BLE001 - a name the lane's parser cannot read
+        return False
+    return False
 
 
 def impl_parse(name):
